@@ -137,7 +137,7 @@ class FaultLog:  # 0418  # TODO: use a NamedTuple
     incremented for all exisiting log enties.
     """
 
-    _MAX_LOG_IDX = 0x3E
+    _MAX_LOG_IDX = 0x3F  # the log is 64 deep: an entry pushed down from 0x3E is still in it
 
     def __init__(self, tcs: _LogbookT) -> None:
         self._tcs: _LogbookT = tcs
